@@ -1493,6 +1493,9 @@ func (cpu *CPU) op_jmp() {
 	case m_Absolute_Indirect_Long:
 		cpu.PC = cpu.Bus.nRead16_wrap(0x00, cpu.StepInfo.Addr)
 		cpu.RK = cpu.Bus.nRead(0x00, cpu.StepInfo.Addr+2)
+	case m_Absolute_X_Indirect:
+		// both pointer bytes come from the program bank, the offset wraps
+		cpu.PC = cpu.Bus.nRead16_wrap(cpu.RK, uint16(cpu.StepInfo.EA))
 	default:
 		cpu.PC = cpu.cmdRead16()
 	}
@@ -1514,6 +1517,9 @@ func (cpu *CPU) op_jsr() {
 	switch cpu.StepInfo.Mode {
 	case m_Absolute:
 		cpu.PC = cpu.StepInfo.Addr
+	case m_Absolute_X_Indirect:
+		// both pointer bytes come from the program bank, the offset wraps
+		cpu.PC = cpu.Bus.nRead16_wrap(cpu.RK, uint16(cpu.StepInfo.EA))
 	default:
 		cpu.PC = cpu.cmdRead16()
 	}
